@@ -41,6 +41,9 @@ CATALOG = {
     },
     "C07": {
         "drivers": [("order", {"quick": 500, "thorough": 20000}, {})],
+        "models": [{"module": "MC_Order", "cfg": {"quick": "MC_Order_quick", "thorough": "MC_Order_thorough"},
+                    "extract": "order_vectors", "replay": "run_order_vector", "chunk": 40,
+                    "limit": {"quick": 3000, "thorough": 100000}}],
     },
     "C08": {
         # the whole list of unregistered overridable functions / ufuncs / ufunc methods is probed in every run
@@ -49,12 +52,21 @@ CATALOG = {
     },
     "C09": {
         "drivers": [("shape", {"quick": 800, "thorough": 30000}, {})],
+        "models": [{"module": "MC_Shape", "cfg": {"quick": "MC_Shape_quick", "thorough": "MC_Shape_thorough"},
+                    "extract": "shape_vectors", "replay": "run_shape_vector", "chunk": 60,
+                    "limit": {"quick": 9000, "thorough": 400000}}],
     },
     "C10": {
         "drivers": [("reduce", {"quick": 500, "thorough": 20000}, {})],
+        "models": [{"module": "MC_Reduce", "cfg": {"quick": "MC_Reduce_quick", "thorough": "MC_Reduce_thorough"},
+                    "extract": "reduce_vectors", "replay": "run_reduce_vector", "chunk": 40,
+                    "limit": {"quick": 5000, "thorough": 100000}}],
     },
     "C18": {
         "drivers": [("index", {"quick": 500, "thorough": 20000}, {})],
+        "models": [{"module": "MC_Sort", "cfg": {"quick": "MC_Sort_quick", "thorough": "MC_Sort_thorough"},
+                    "extract": "vectors", "replay": "run_sort_vector", "chunk": 40,
+                    "limit": {"quick": 8000, "thorough": 400000}}],
     },
     "C19": {
         "drivers": [("lead", {"quick": 500, "thorough": 20000}, {})],
@@ -147,6 +159,6 @@ def run_model_stage(pid: str, m: dict, tier: str, seed: int, wd: str):
             k = (len(items) + limit - 1) // limit
             items = items[seed % k::k]
         stats["programs_replayed"] = len(items)
-        tasks = pool.replay_tasks(m["replay"], items, pid, kw=m.get("kw"))
+        tasks = pool.replay_tasks(m["replay"], items, pid, kw=m.get("kw"), chunk=m.get("chunk", 200))
         os.remove(path)
     return stats, tasks
